@@ -295,17 +295,135 @@ Proof.
   intro k. rewrite A, Es. apply batch_pass; assumption.
 Qed.
 
+(* ------------------------------------------------------------------ the change log since the last snapshot *)
+Lemma bget_app k a b : bget k (a ++ b) = match bget k b with Some r => Some r | None => bget k a end.
+Proof.
+  induction b as [|x b IH] using rev_ind; [rewrite app_nil_r; reflexivity|].
+  rewrite app_assoc, !bget_snoc, IH. destruct (Nat.eqb (bkey x) k); reflexivity.
+Qed.
+
+Lemma bget_none k l : bget k l = None <-> (forall b, In b l -> bkey b <> k).
+Proof.
+  induction l as [|x l IH] using rev_ind; [split; [intros _ b []|reflexivity]|].
+  rewrite bget_snoc. destruct (Nat.eqb (bkey x) k) eqn:Q.
+  - apply Nat.eqb_eq in Q. split; [discriminate|]. intro H. exfalso. apply (H x); [apply in_app_iff; right; left; reflexivity|assumption].
+  - apply Nat.eqb_neq in Q. rewrite IH. split; intros H b Hb.
+    + apply in_app_iff in Hb as [Hb|[<-|[]]]; auto.
+    + apply H. apply in_app_iff. auto.
+Qed.
+
+Lemma ab_app a b s : apply_batch (a ++ b) s = apply_batch b (apply_batch a s).
+Proof. unfold apply_batch. apply fold_left_app. Qed.
+
+Lemma iter_batch evs n : forall s, iter n (apply_batch evs) s = apply_batch (concat (repeat evs n)) s.
+Proof. induction n; intro s; simpl; [reflexivity|]. rewrite IHn, ab_app. reflexivity. Qed.
+
+Lemma iter_put_batch k v n s : iter n (watch_put k v) s = iter n (apply_batch [BPut k v]) s.
+Proof. reflexivity. Qed.
+Lemma iter_del_batch k n s : iter n (watch_del k) s = iter n (apply_batch [BDel k]) s.
+Proof. reflexivity. Qed.
+
+Lemma ab_wlog evs : forall s, wlog (apply_batch evs s) = wlog s.
+Proof.
+  induction evs as [|b evs IH]; intro s; [reflexivity|]. rewrite ab_cons, IH. destruct b; reflexivity.
+Qed.
+
+Definition loginv (u : key -> bool) (s : state) : Prop :=
+  (forall k r, bget k (wlog s) = Some r -> kget k (etcd s) = r) /\
+  (cvals s = None -> nwatch s = 0) /\
+  (forall m, cvals s = Some m ->
+     (forall k, u k = false -> kget k m = None) /\
+     (forall k, u k = true -> bget k (wlog s) = None -> kget k m = kget k (etcd s))).
+
+(* a change of the store, logged *)
+Lemma loginv_base u s items r :
+  loginv u s ->
+  loginv u (mkS (fold_left bev_step items (etcd s)) r (cvals s) (subs s) (nwatch s) (wlog s ++ items)).
+Proof.
+  intros (L1 & L0 & L2). fold (bapply (etcd s) items). split; [|split]; simpl.
+  - intros k x. rewrite bget_app, kget_bapply. destruct (bget k items); [intro H; inversion H; reflexivity|apply L1].
+  - assumption.
+  - intros m C. destruct (L2 m C) as [A B]. split; [assumption|]. intros k U. rewrite bget_app, kget_bapply.
+    destruct (bget k items); [discriminate|]. apply B. assumption.
+Qed.
+
+(* events already in the log (under the prefix) handled by a stream *)
+Lemma loginv_deliver u s pl : cvals s <> None ->
+  (forall b, In b pl -> u (bkey b) = true /\ exists b', In b' (wlog s) /\ bkey b' = bkey b) ->
+  loginv u s -> loginv u (apply_batch pl s).
+Proof.
+  intros NN P (L1 & L0 & L2). destruct (ab_etcd pl s) as [E N]. destruct (cvals s) as [m|] eqn:C; [|congruence].
+  split; [|split]; rewrite ?ab_wlog, ?E, ?N.
+  - assumption.
+  - rewrite (ab_cvals pl s m C). discriminate.
+  - intros m' C'. rewrite (ab_cvals pl s m C) in C'. inversion C'; subst m'. destruct (L2 m eq_refl) as [A B]. split.
+    + intros k U. rewrite kget_bapply. destruct (bget k pl) eqn:G; [|auto]. exfalso.
+      assert (Hn : ~ (forall b, In b pl -> bkey b <> k)) by (rewrite <- bget_none, G; discriminate).
+      apply Hn. intros b Hb Q. destruct (P b Hb) as [Ub _]. congruence.
+    + intros k U Bn. rewrite kget_bapply. destruct (bget k pl) eqn:G; [|auto]. exfalso.
+      assert (Hn : ~ (forall b, In b pl -> bkey b <> k)) by (rewrite <- bget_none, G; discriminate).
+      apply Hn. intros b Hb Q. destruct (P b Hb) as [_ (b' & Hb' & Kb)].
+      apply (proj1 (bget_none k (wlog s)) Bn b' Hb'). congruence.
+Qed.
+
+(* a logged change delivered to the n open streams *)
+Lemma loginv_change u s items r pl : pl = filter (fun b => u (bkey b)) items ->
+  loginv u s ->
+  loginv u (iter (nwatch s) (apply_batch pl)
+                 (mkS (fold_left bev_step items (etcd s)) r (cvals s) (subs s) (nwatch s) (wlog s ++ items))).
+Proof.
+  intros -> L. pose proof (loginv_base u s items r L) as L'. destruct L as (_ & L0 & _).
+  assert (D : cvals s = None \/ cvals s <> None) by (destruct (cvals s); [right; discriminate|left; reflexivity]).
+  destruct D as [C|C].
+  - revert L'. rewrite (L0 C). intro L'. exact L'.
+  - rewrite iter_batch. apply loginv_deliver; [exact C| |exact L'].
+    intros b Hb. apply in_concat in Hb as (l & Hl & Hb). apply repeat_spec in Hl. subst l.
+    apply filter_In in Hb as [Hb U]. split; [assumption|]. exists b. simpl. split; [apply in_app_iff; auto|reflexivity].
+Qed.
+
+Lemma loginv_snapshot u s oa od l n : NoDup (map fst (etcd s)) ->
+  let s1 := handle_changes true oa od (snapshot_of u s) s in
+  loginv u (mkS (etcd s1) (rev s1) (cvals s1) l n []).
+Proof.
+  intros N s1. destruct (snapshot_exact u s oa od N) as (m & C & A). fold s1 in C, A.
+  split; [|split]; simpl.
+  - intros k r H. discriminate.
+  - rewrite C. discriminate.
+  - intros m' C'. rewrite C in C'. inversion C'; subst m'. split; intros k U; [|intros _]; rewrite A, U; reflexivity.
+Qed.
+
+Lemma loginv_step u s e : NoDup (map fst (etcd s)) -> loginv u s -> loginv u (step u true s e).
+Proof.
+  intros N L. destruct e as [k v d|k d|oa od|oc oa od|items| |]; simpl.
+  - destruct (d && u k) eqn:DU.
+    + apply andb_true_iff in DU as [_ U]. rewrite iter_put_batch.
+      apply (loginv_change u s [BPut k v]); [simpl; rewrite U; reflexivity|assumption].
+    + apply (loginv_base u s [BPut k v]). assumption.
+  - destruct (kget k (etcd s)); [|assumption]. destruct (d && u k) eqn:DU.
+    + apply andb_true_iff in DU as [_ U]. rewrite iter_del_batch.
+      apply (loginv_change u s [BDel k]); [simpl; rewrite U; reflexivity|assumption].
+    + apply (loginv_base u s [BDel k]). assumption.
+  - destruct (subs s); [assumption|]. apply loginv_snapshot. assumption.
+  - match goal with |- loginv u (mkS (etcd (handle_changes true oa od ?kv ?s1)) _ _ _ _ _) =>
+      change kv with (snapshot_of u s1); apply (loginv_snapshot u s1 oa od) end. assumption.
+  - apply (loginv_change u s items); [reflexivity|assumption].
+  - assumption.
+  - destruct (nwatch s) eqn:NW; [assumption|]. destruct L as (L1 & L0 & L2).
+    apply loginv_deliver; [intro C; rewrite (L0 C) in NW; discriminate| |exact (conj L1 (conj L0 L2))].
+    intros b Hb. apply filter_In in Hb as [Hb U]. split; [assumption|]. exists b. auto.
+Qed.
+
 Definition inv (u : key -> bool) (st : bool * bool) (s : state) : Prop :=
   NoDup (map fst (etcd s)) /\
   (fst st = true -> watching s) /\
   (fst st = false -> idle s) /\
   (fst st = true -> snd st = true -> exact u s).
 
-Lemma inv_step u st s e : inv u st s -> inv u (sync_step u st e) (step u true s e).
+Lemma inv_step u st s e : loginv u s -> inv u st s -> inv u (sync_step u st e) (step u true s e).
 Proof.
-  intros (N & W & I & X). destruct e as [k v d|k d|oa od|oc oa od|items|]; simpl.
+  intros LG (N & W & I & X). destruct e as [k v d|k d|oa od|oc oa od|items| |]; simpl.
   - (* Put *)
-    set (s1 := mkS (kset k v (etcd s)) (S (rev s)) (cvals s) (subs s) (nwatch s)).
+    set (s1 := mkS (kset k v (etcd s)) (S (rev s)) (cvals s) (subs s) (nwatch s) (wlog s ++ [BPut k v])).
     assert (N1 : NoDup (map fst (etcd s1))) by (apply nodup_set; assumption).
     destruct (d && u k) eqn:DU.
     + apply andb_true_iff in DU as [-> U]. simpl. rewrite andb_true_r.
@@ -331,7 +449,7 @@ Proof.
     destruct (kget k (etcd s)) as [v0|] eqn:G0.
     2:{ split; [assumption|]. split; [|split]; try assumption.
         intros L O. apply andb_true_iff in O as [O1 _]. auto. }
-    set (s1 := mkS (kdel k (etcd s)) (S (rev s)) (cvals s) (subs s) (nwatch s)).
+    set (s1 := mkS (kdel k (etcd s)) (S (rev s)) (cvals s) (subs s) (nwatch s) (wlog s ++ [BDel k])).
     assert (N1 : NoDup (map fst (etcd s1))) by (apply nodup_remove; assumption).
     destruct (d && u k) eqn:DU.
     + apply andb_true_iff in DU as [-> U]. simpl. rewrite andb_true_r.
@@ -361,7 +479,7 @@ Proof.
     + destruct (hc_fields oa od (snapshot_of u s) s) as (E & _ & _ & C & SB).
       simpl. split; [rewrite E; assumption|].
       assert (WW : watching (let s1 := handle_changes true oa od (snapshot_of u s) s in
-                             mkS (etcd s1) (rev s1) (cvals s1) (subs s1) 1)).
+                             mkS (etcd s1) (rev s1) (cvals s1) (subs s1) 1 [])).
       { unfold watching; simpl. repeat split; [|lia|rewrite C; discriminate].
         intro H. apply SB in H. congruence. }
       destruct (fst st) eqn:L.
@@ -370,7 +488,7 @@ Proof.
       * destruct (I eq_refl) as (A & _). congruence.
   - (* Subscribe *)
     set (replay := match subs s with [] => [] | _ => map add_call (order_by oc (cur s)) end).
-    set (s1 := mkS (etcd s) (rev s) (cvals s) (subs s ++ [replay]) (nwatch s)).
+    set (s1 := mkS (etcd s) (rev s) (cvals s) (subs s ++ [replay]) (nwatch s) (wlog s)).
     destruct (hc_fields oa od (snapshot_of u s1) s1) as (E & _ & _ & C & SB).
     split; [rewrite E; assumption|]. split; [|split].
     + intros _. unfold watching; simpl. repeat split; [|lia|rewrite C; discriminate].
@@ -379,7 +497,7 @@ Proof.
     + intros _ _. destruct (snapshot_exact u s1 oa od N) as (m & Cm & A). exists m. split; assumption.
   - (* Batch *)
     set (E' := fold_left bev_step items (etcd s)).
-    set (s1 := mkS E' (length items + rev s) (cvals s) (subs s) (nwatch s)).
+    set (s1 := mkS E' (length items + rev s) (cvals s) (subs s) (nwatch s) (wlog s ++ items)).
     set (evs := filter (fun b => u (bkey b)) items).
     assert (H3 : forall k r, bget k items = Some r -> kget k E' = r).
     { intros k r B. unfold E'. fold (bapply (etcd s) items). rewrite kget_bapply, B. reflexivity. }
@@ -402,14 +520,31 @@ Proof.
       * intros k U. rewrite A', U. reflexivity.
       * intros k U _. rewrite A', U, Es'. reflexivity.
   - (* GetFail *) exact (conj N (conj W (conj I X))).
+  - (* Rewatch *)
+    destruct LG as (L1 & L0 & L2). destruct (nwatch s) as [|n] eqn:NW.
+    + split; [assumption|]. split; [assumption|]. split; [assumption|]. intros L _.
+      destruct (W L) as (_ & A & _). lia.
+    + set (pl := filter (fun b => u (bkey b)) (wlog s)). destruct (ab_etcd pl s) as [E _].
+      split; [rewrite E; assumption|]. split; [intro L; apply ab_watching; auto|]. split.
+      * intro L. destruct (I L) as (_ & A & _). congruence.
+      * intros L _. destruct (W L) as (_ & _ & C). destruct (cvals s) as [m|] eqn:Cm; [|congruence].
+        destruct (L2 m eq_refl) as [A B].
+        apply (batch_exact u (wlog s) (etcd s) s eq_refl L1). exists m. auto.
+Qed.
+
+Lemma run_inv2 u h : inv u (sync_state u h) (run u h) /\ loginv u (run u h).
+Proof.
+  induction h as [|e h IH] using rev_ind.
+  - split.
+    + unfold inv, idle; simpl. repeat split; try constructor; try discriminate.
+    + unfold loginv; simpl. split; [intros k r H; discriminate|]. split; [reflexivity|discriminate].
+  - destruct IH as [IH1 IH2]. rewrite run_snoc, sync_snoc. split.
+    + apply inv_step; assumption.
+    + apply loginv_step; [apply IH1|assumption].
 Qed.
 
 Lemma run_inv u h : inv u (sync_state u h) (run u h).
-Proof.
-  induction h as [|e h IH] using rev_ind.
-  - unfold inv, idle; simpl. repeat split; try constructor; try discriminate.
-  - rewrite run_snoc, sync_snoc. apply inv_step. assumption.
-Qed.
+Proof. apply run_inv2. Qed.
 
 Lemma cluster_tracks u h : synced u h = true ->
   exists m, cvals (run u h) = Some m /\
@@ -424,14 +559,14 @@ Lemma etcd_spec u h : forall k, kget k (etcd (run u h)) = kget k (spec_etcd h).
 Proof.
   induction h as [|e h IH] using rev_ind; intro k; [reflexivity|].
   rewrite run_snoc. unfold spec_etcd. rewrite fold_left_app. fold (spec_etcd h). simpl.
-  destruct e as [k0 v d|k0 d|oa od|oc oa od|items|]; simpl.
+  destruct e as [k0 v d|k0 d|oa od|oc oa od|items| |]; simpl.
   - destruct (d && u k0).
-    + destruct (etcd_iter_put k0 v (nwatch (run u h)) (mkS (kset k0 v (etcd (run u h))) (S (rev (run u h))) (cvals (run u h)) (subs (run u h)) (nwatch (run u h)))) as [-> _].
+    + destruct (etcd_iter_put k0 v (nwatch (run u h)) (mkS (kset k0 v (etcd (run u h))) (S (rev (run u h))) (cvals (run u h)) (subs (run u h)) (nwatch (run u h)) (wlog (run u h) ++ [BPut k0 v]))) as [-> _].
       simpl. rewrite !kget_kset, IH. reflexivity.
     + simpl. rewrite !kget_kset, IH. reflexivity.
   - destruct (kget k0 (etcd (run u h))) eqn:G.
     + destruct (d && u k0).
-      * destruct (etcd_iter_del k0 (nwatch (run u h)) (mkS (kdel k0 (etcd (run u h))) (S (rev (run u h))) (cvals (run u h)) (subs (run u h)) (nwatch (run u h)))) as [-> _].
+      * destruct (etcd_iter_del k0 (nwatch (run u h)) (mkS (kdel k0 (etcd (run u h))) (S (rev (run u h))) (cvals (run u h)) (subs (run u h)) (nwatch (run u h)) (wlog (run u h) ++ [BDel k0]))) as [-> _].
         simpl. rewrite !kget_kdel, IH. reflexivity.
       * simpl. rewrite !kget_kdel, IH. reflexivity.
     + rewrite kget_kdel, <- IH. destruct (Nat.eqb k k0) eqn:Q; [|reflexivity].
@@ -443,6 +578,7 @@ Proof.
   - rewrite (proj1 (etcd_iter_batch _ _ _)). simpl. fold (bapply (etcd (run u h)) items). fold (bapply (spec_etcd h) items).
     rewrite !kget_bapply, IH. reflexivity.
   - apply IH.
+  - destruct (nwatch (run u h)); [apply IH|]. rewrite (proj1 (ab_etcd _ _)). apply IH.
 Qed.
 
 (* ------------------------------------------------------------------ maps whose values are vf *)
@@ -670,10 +806,28 @@ Proof.
   destruct b; [apply linv_put|apply linv_del]; assumption.
 Qed.
 
-Lemma linv_step vf u s e : ev_ok vf e -> linv vf s -> linv vf (step u true s e).
+Lemma wlog_iter (f : state -> state) : (forall s, wlog (f s) = wlog s) -> forall n s, wlog (iter n f s) = wlog s.
+Proof. intros H n. induction n; intro s; simpl; [reflexivity|]. rewrite IHn. apply H. Qed.
+
+Lemma wlog_step vf u s e : ev_ok vf e -> Forall (bev_ok vf) (wlog s) -> Forall (bev_ok vf) (wlog (step u true s e)).
 Proof.
-  intros Ok L0. pose proof L0 as (Te & Tc & F & Z). destruct e as [k v d|k d|oa od|oc oa od|items|]; simpl in *.
-  - set (s1 := mkS (kset k v (etcd s)) (S (rev s)) (cvals s) (subs s) (nwatch s)).
+  intros Ok F. destruct e as [k v d|k d|oa od|oc oa od|items| |]; simpl in *.
+  - assert (G : Forall (bev_ok vf) (wlog s ++ [BPut k v])) by (apply Forall_app; split; [assumption|constructor; [exact Ok|constructor]]).
+    destruct (d && u k); [rewrite (wlog_iter (watch_put k v) (fun s0 => eq_refl))|]; exact G.
+  - destruct (kget k (etcd s)); [|assumption].
+    assert (G : Forall (bev_ok vf) (wlog s ++ [BDel k])) by (apply Forall_app; split; [assumption|constructor; [exact I|constructor]]).
+    destruct (d && u k); [rewrite (wlog_iter (watch_del k) (fun s0 => eq_refl))|]; exact G.
+  - destruct (subs s); [assumption|constructor].
+  - constructor.
+  - rewrite (wlog_iter _ (ab_wlog _)). simpl. apply Forall_app. split; assumption.
+  - assumption.
+  - destruct (nwatch s); [assumption|]. rewrite ab_wlog. assumption.
+Qed.
+
+Lemma linv_step vf u s e : ev_ok vf e -> Forall (bev_ok vf) (wlog s) -> linv vf s -> linv vf (step u true s e).
+Proof.
+  intros Ok WL L0. pose proof L0 as (Te & Tc & F & Z). destruct e as [k v d|k d|oa od|oc oa od|items| |]; simpl in *.
+  - set (s1 := mkS (kset k v (etcd s)) (S (rev s)) (cvals s) (subs s) (nwatch s) (wlog s ++ [BPut k v])).
     assert (L1 : typed vf (etcd s1)) by (apply typed_kset; assumption).
     destruct (d && u k).
     + destruct (etcd_iter_put k v (nwatch s) s1) as [E1 E2].
@@ -687,7 +841,7 @@ Proof.
       simpl in H. destruct (Z H) as [Z1 Z2]. subst s1. rewrite Z2. simpl. split; auto.
     + split; [assumption|]. split; [assumption|]. split; assumption.
   - destruct (kget k (etcd s)); [|assumption].
-    set (s1 := mkS (kdel k (etcd s)) (S (rev s)) (cvals s) (subs s) (nwatch s)).
+    set (s1 := mkS (kdel k (etcd s)) (S (rev s)) (cvals s) (subs s) (nwatch s) (wlog s ++ [BDel k])).
     assert (L1 : typed vf (etcd s1)) by (apply typed_kdel; assumption).
     destruct (d && u k).
     + destruct (etcd_iter_del k (nwatch s) s1) as [E1 E2].
@@ -706,7 +860,7 @@ Proof.
     destruct H as (A & B & C & D). split; [assumption|]. split; [assumption|]. split; [assumption|].
     simpl. intro H. destruct (hc_fields oa od (snapshot_of u s) s) as (_ & _ & _ & _ & SB). apply SB in H. congruence.
   - set (replay := match subs s with [] => [] | _ => map add_call (order_by oc (cur s)) end).
-    set (s1 := mkS (etcd s) (rev s) (cvals s) (subs s ++ [replay]) (nwatch s)).
+    set (s1 := mkS (etcd s) (rev s) (cvals s) (subs s ++ [replay]) (nwatch s) (wlog s)).
     assert (L1 : linv vf s1).
     { split; [assumption|]. split; [assumption|]. split; simpl.
       - change (cur s1) with (cur s). apply Forall_app. split; [assumption|]. constructor; [|constructor]. unfold replay.
@@ -723,7 +877,7 @@ Proof.
     simpl. intro H. destruct (hc_fields oa od (snapshot_of u s1) s1) as (_ & _ & _ & _ & SB). apply SB in H. simpl in H.
     destruct (subs s); discriminate.
   - set (evs := filter (fun b => u (bkey b)) items).
-    set (s1 := mkS (fold_left bev_step items (etcd s)) (length items + rev s) (cvals s) (subs s) (nwatch s)).
+    set (s1 := mkS (fold_left bev_step items (etcd s)) (length items + rev s) (cvals s) (subs s) (nwatch s) (wlog s ++ items)).
     assert (Fe : Forall (bev_ok vf) evs).
     { apply Forall_forall. intros b Hb. apply filter_In in Hb as [Hb _]. eapply Forall_forall in Ok; eauto. }
     destruct (etcd_iter_batch evs (nwatch s) s1) as [E1 E2].
@@ -736,14 +890,26 @@ Proof.
     intro H. apply subs_iter_nil in H; [|intro s'; rewrite ab_subs; destruct (subs s'); simpl; split; congruence].
     simpl in H. destruct (Z H) as [Z1 Z2]. subst s1. rewrite Z2. simpl. split; auto.
   - exact L0.
+  - destruct (nwatch s) eqn:NW; [exact L0|].
+    set (pl := filter (fun b => u (bkey b)) (wlog s)).
+    assert (Fe : Forall (bev_ok vf) pl).
+    { apply Forall_forall. intros b Hb. apply filter_In in Hb as [Hb _]. eapply Forall_forall in WL; eauto. }
+    destruct (ab_linv vf pl Fe s (conj Tc F)) as [P1 P2]. destruct (ab_etcd pl s) as [E1 E2].
+    split; [rewrite E1; assumption|]. split; [assumption|]. split; [assumption|].
+    intro H. rewrite ab_subs in H. destruct (subs s) eqn:Sb; [|discriminate]. destruct (Z eq_refl) as [_ Z2]. congruence.
+Qed.
+
+Lemma run_linv2 vf u h : consistent vf h -> linv vf (run u h) /\ Forall (bev_ok vf) (wlog (run u h)).
+Proof.
+  induction h as [|e h IH] using rev_ind; intro C.
+  - split; [|constructor]. unfold linv, run, run_from, cur; simpl. split; [intros a b []|]. split; [intros a b []|]. split; [constructor|auto].
+  - apply Forall_app in C as [C1 C2]. inversion C2; subst. destruct (IH C1) as [IH1 IH2]. rewrite run_snoc. split.
+    + apply linv_step; auto.
+    + apply wlog_step; auto.
 Qed.
 
 Lemma run_linv vf u h : consistent vf h -> linv vf (run u h).
-Proof.
-  induction h as [|e h IH] using rev_ind; intro C.
-  - unfold linv, run, run_from, cur; simpl. split; [intros a b []|]. split; [intros a b []|]. split; [constructor|auto].
-  - apply Forall_app in C as [C1 C2]. inversion C2; subst. rewrite run_snoc. apply linv_step; auto.
-Qed.
+Proof. intro C. apply run_linv2. assumption. Qed.
 
 (* ------------------------------------------------------------------ the container *)
 Definition vals_get (v : val) (vs : list (val * list key)) : option (list key) := alookup Nat.eqb v vs.
@@ -1534,13 +1700,13 @@ Lemma sync_delivered u v evs : Forall (pev_ok v) evs -> forall h, sync_state u (
 Proof.
   induction evs as [|e evs IH] using rev_ind; intros F h; [rewrite app_nil_r; reflexivity|].
   apply Forall_app in F as [F1 F2]. inversion F2; subst. rewrite app_assoc, sync_snoc, IH by assumption.
-  destruct e as [k v' [|]|k [|]| | | |]; simpl in *; try contradiction;
+  destruct e as [k v' [|]|k [|]| | | | |]; simpl in *; try contradiction;
     rewrite andb_true_r; destruct (sync_state u h); reflexivity.
 Qed.
 
 Lemma consistent_delivered v evs : Forall (pev_ok v) evs -> consistent (fun _ => v) evs.
 Proof.
-  intro F. eapply Forall_impl; [|exact F]. intros e H. destruct e as [k v' [|]|k [|]| | | |]; simpl in *; try contradiction; auto.
+  intro F. eapply Forall_impl; [|exact F]. intros e H. destruct e as [k v' [|]|k [|]| | | | |]; simpl in *; try contradiction; auto.
 Qed.
 
 (* a subscriber that was there before the publisher started lists the instance iff the publisher is active *)
@@ -1578,3 +1744,27 @@ Lemma getfail_skip u h1 h2 :
 Proof.
   unfold run, run_from, sync_state, spec_etcd. rewrite !fold_left_app. simpl. auto.
 Qed.
+
+(* ------------------------------------------------------------------ a watch stream cancelled by the server *)
+Lemma rewatch_resyncs u h : subs (run u h) <> [] -> synced u (h ++ [Rewatch]) = true.
+Proof.
+  intro H. unfold synced. rewrite sync_snoc. simpl. rewrite (subs_loaded u h H). rewrite orb_true_r. reflexivity.
+Qed.
+
+Lemma rewatch_reaches u h : 1 <= nwatch (run u h) ->
+  subs (run u (h ++ [Rewatch])) =
+  map (fun l => l ++ map bcall (filter (fun b => u (bkey b)) (wlog (run u h)))) (subs (run u h)) /\
+  nwatch (run u (h ++ [Rewatch])) = nwatch (run u h).
+Proof.
+  intro H. rewrite run_snoc. simpl. destruct (nwatch (run u h)) eqn:N; [lia|]. rewrite ab_subs.
+  rewrite (proj2 (ab_etcd _ _)). auto.
+Qed.
+
+(* ------------------------------------------------------------------ one resolver per target *)
+Lemma resolver_per_target us vf h i log init sched :
+  consistent vf (project i h) -> synced (us i) (project i h) = true ->
+  In log (subs (mrun us h i)) -> init ++ arrived sched = log ->
+  let r := rrun build_order init sched in
+  r_todo r = [] ->
+  exists ps vs, r_pushes r = ps ++ [Ok vs] /\ NoDup vs /\ forall v, In v vs <-> live (us i) (spec_etcd (project i h)) v.
+Proof. intros C Sy Hin E. apply (resolver_current (us i) vf (project i h) log init sched C Sy Hin E). Qed.
